@@ -10,17 +10,19 @@ EXTENDS Mcb, Json, IOUtils
 Tr == ndJsonDeserialize(IOEnv.TRACE)
 VARIABLES l,       \* next line of the trace
           cl,      \* line of the Call event of the current call
-          skip     \* TRUE while the rest of a rejected call is skipped
-tvars == <<l, cl, skip, pc, G, out, basis>>
+          skip,    \* TRUE while the rest of a rejected call is skipped
+          deg,     \* TRUE if the call was rejected at an Emit (its Return is still checked for the weight clauses)
+          wsum     \* sum of the weights of everything emitted in the current call, -1 = undefined (foreign edge)
+tvars == <<l, cl, skip, deg, wsum, pc, G, out, basis>>
 
 Report(v) == IF v = {} THEN TRUE ELSE PrintT(<<"REJECT", cl, l, v>>)
 GraphOf(ev) == [n |-> ev.n, edges |-> ev.edges]
 
-TInit == MInit /\ l = 1 /\ cl = 0 /\ skip = FALSE
+TInit == MInit /\ l = 1 /\ cl = 0 /\ skip = FALSE /\ deg = FALSE /\ wsum = 0
 
 TCall(ev) ==
   /\ ev.e = "Call"
-  /\ cl' = l
+  /\ cl' = l /\ deg' = FALSE /\ wsum' = 0
   /\ IF InDomain(GraphOf(ev))
        THEN pc' = "run" /\ G' = GraphOf(ev) /\ out' = <<>> /\ basis' = <<>> /\ skip' = FALSE
        ELSE PrintT(<<"REJECT", l, l, {"bad-input"}>>) /\ skip' = TRUE /\ UNCHANGED mvars
@@ -28,27 +30,28 @@ TCall(ev) ==
 TEmit(ev) ==
   /\ ev.e = "Emit"
   /\ UNCHANGED cl
-  /\ IF skip THEN UNCHANGED <<skip, pc, G, out, basis>>
+  /\ wsum' = (IF skip /\ ~deg THEN wsum ELSE AddW(wsum, ev.cyc))
+  /\ IF skip THEN UNCHANGED <<skip, deg, pc, G, out, basis>>
      ELSE LET v == EmitViol(ev.cyc) IN
-          IF v = {} THEN Emit(ev.cyc) /\ UNCHANGED skip
-          ELSE Report(v) /\ skip' = TRUE /\ UNCHANGED mvars
+          IF v = {} THEN Emit(ev.cyc) /\ UNCHANGED <<skip, deg>>
+          ELSE Report(v) /\ skip' = TRUE /\ deg' = TRUE /\ UNCHANGED mvars
 
 TReturn(ev) ==
   /\ ev.e = "Return"
-  /\ UNCHANGED cl
-  /\ IF skip THEN skip' = FALSE /\ pc' = "idle" /\ UNCHANGED <<G, out, basis>>
+  /\ UNCHANGED <<cl, wsum>> /\ deg' = FALSE
+  /\ IF skip THEN (IF deg THEN Report(DegradedReturnViol(ev, wsum)) ELSE TRUE) /\ skip' = FALSE /\ pc' = "idle" /\ UNCHANGED <<G, out, basis>>
      ELSE LET v == ReturnViol(ev) IN
           /\ Report(v)
           /\ pc' = "idle" /\ UNCHANGED <<G, out, basis, skip>>
 
 TCrash(ev) ==
   /\ ev.e = "Crash"
-  /\ UNCHANGED cl
+  /\ UNCHANGED <<cl, wsum>> /\ deg' = FALSE
   /\ (skip \/ Report({"crash"}))
   /\ skip' = FALSE /\ pc' = "idle" /\ UNCHANGED <<G, out, basis>>
 
 \* the arena could not realise the requested address order: a machinery problem, reported as such by the driver
-TLayoutError(ev) == ev.e = "LayoutError" /\ PrintT(<<"LAYOUTERROR", l>>) /\ UNCHANGED <<cl, skip, pc, G, out, basis>>
+TLayoutError(ev) == ev.e = "LayoutError" /\ PrintT(<<"LAYOUTERROR", l>>) /\ UNCHANGED <<cl, skip, deg, wsum, pc, G, out, basis>>
 
 TNext == /\ l <= Len(Tr)
          /\ l' = l + 1
